@@ -88,6 +88,31 @@ Theorem C17_one_writer_per_inode :
 Proof. exact impl_one_writer_per_inode. Qed.
 Print Assumptions C17_one_writer_per_inode.
 
+(* the writer's critical section contains no unlock: in every reachable state of the implementation
+   model every live handle still holds the exclusive flock its open was granted (flock state belongs
+   to the open file description; a LOCK_UN through a dup / try_clone of one of its descriptors would
+   release it -- Model.LockTable.unlock_description).  The harness checks the same on the real
+   process: strace of a writer shows no flock(LOCK_UN) on the memory file before its close. *)
+Theorem C17_writer_lock_never_released :
+  forall (ops : list op) (w : N) (h : handle),
+    s_hs (run_impl ops) w = Some h -> h_phase h = PLive -> h_lock_mode h = LEx.
+Proof. exact impl_writer_lock_never_released. Qed.
+Print Assumptions C17_writer_lock_never_released.
+
+(* ... and what a violation of it does (NOT the implementation: a temporary
+   FileLock::acquire(&self.file) guard inside begin_batch / log growth, before the first commit):
+   the guard's drop unlocks the writer's own description, a second open is granted on the SAME
+   inode -- outside the known class *)
+Theorem C17_guard_on_clone_admits_second_writer :
+  let s := touch_with_temporary_guard (run_impl before_guard) 0 in
+  forallb (fun o => match o with Commit _ | Vacuum _ | Drop _ | Doctor _ => false | _ => true end) before_guard = true /\
+  is_live (step_impl (run_impl before_guard) (Open 1)) 1 = false /\
+  (exists h, s_hs s 0 = Some h /\ h_phase h = PLive /\ h_lock_mode h = LNone) /\
+  stale s = false /\
+  is_live (step_impl s (Open 1)) 0 = true /\ is_live (step_impl s (Open 1)) 1 = true.
+Proof. exact guard_on_clone_admits_second_writer. Qed.
+Print Assumptions C17_guard_on_clone_admits_second_writer.
+
 (* the correct protocol never enters the known class *)
 Theorem C17_correct_protocol_never_stale : forall ops : list op, stale (run_fixed ops) = false.
 Proof. exact fixed_never_stale. Qed.
